@@ -275,11 +275,18 @@ def execute(scn, guide=None, keep=False, observer=None):
     PW._on_device_message = traced_msg
     PW._on_printrun_error = traced_err
 
+    def handover_race(e):
+        # printcore._start_sender publishes the Thread object before starting it; a disconnect()
+        # that runs in between fails in _stop_sender -> join() (unchanged-tree race outside C16)
+        return isinstance(e, RuntimeError) and "before it is started" in str(e)
+
     def main():
         w = state["w"] = mk_writer()
         eol = scn.get("eol", "\n")
         for op in scn["ops"]:
             if state["stopped_after_loss"] and op[0] in ("write", "connect", "settle"):
+                continue
+            if state.get("handover") and op[0] in ("disconnect", "connect_timeout", "idle_error"):
                 continue
             if op[0] == "connect":
                 s0 = k.ev("connect-call")
@@ -318,8 +325,15 @@ def execute(scn, guide=None, keep=False, observer=None):
                         w.disconnect(False)
                     except SimAbort:
                         raise
-                    except BaseException:
-                        pass
+                    except BaseException as e2:
+                        if handover_race(e2):
+                            # the attempt connected after all and the immediate disconnect met the
+                            # start-up print thread handing over to a send thread that is assigned
+                            # but not started: the writer is left half-disconnected, nothing after
+                            # this belongs to a session C16 speaks about
+                            k.ev("disc-handover-race")
+                            k.probe("obs.thread_handover_race")
+                            state["stopped_after_loss"] = state["handover"] = True
                 except SimAbort:
                     raise
                 except BaseException as e:
@@ -379,7 +393,12 @@ def execute(scn, guide=None, keep=False, observer=None):
                 except SimAbort:
                     raise
                 except BaseException as e:
-                    hist.append(("disc-raise", None, k.ev("disc-raise", type(e).__name__, str(e)[:80]), e))
+                    if handover_race(e):
+                        k.ev("disc-handover-race")
+                        k.probe("obs.thread_handover_race")
+                        state["stopped_after_loss"] = state["handover"] = True
+                    else:
+                        hist.append(("disc-raise", None, k.ev("disc-raise", type(e).__name__, str(e)[:80]), e))
         state["done"] = True
         # tear-down that is not part of the judged history (a minimised scenario may have
         # lost its disconnect operation)
